@@ -23,7 +23,7 @@ package calcium
 //@                                                       && (forall e :: 0 <= e && e < len(nodeFilter.Excludes) ==> nodeFilter.Excludes[e] != ns[a].Name))
 //@                                && (forall k :: 0 <= k && k < len(listed) && (forall e :: 0 <= e && e < len(nodeFilter.Excludes) ==> nodeFilter.Excludes[e] != atcall(Store.GetNodesByPod, listed[k].Name))
 //@                                                       ==> exists a :: 0 <= a && a < len(ns) && ns[a].Name == atcall(Store.GetNodesByPod, listed[k].Name))
-//@   ensures[C21.nonnil]         err == nil ==> forall a :: 0 <= a && a < len(ns) ==> ns[a] != nil
+//@   ensures[C21.nonnil]         err == nil ==> (arr(ns) == 0 || (fresh(ns) && allocated(ns))) && forall a :: 0 <= a && a < len(ns) ==> ns[a] != nil && allocated(ns[a])
 //@   loop 1:
 //@     modifies nothing
 //@     invariant len(ns) == rangeindex + 1 && (arr(ns) == 0 || (fresh(ns) && allocated(ns)))
@@ -63,3 +63,35 @@ package calcium
 //@     invariant forall b :: 0 <= b && b <= rangeindex ==> exists a :: 0 <= a && a < p && ns[a].Name == pre(ns[b].Name)
 //@     invariant forall a :: 0 <= a && a < len(ns) ==> exists b :: 0 <= b && b < len(old(ns)) && old(ns[b].Name) == pre(ns[a].Name)
 //@     invariant forall b :: 0 <= b && b < len(old(ns)) ==> exists a :: 0 <= a && a < len(ns) && pre(ns[a].Name) == old(ns[b].Name)
+
+//@ # ---------- lock order (C20) ----------
+//@ ufun keyOf(n ref) string
+//@ ufun wlKey(id string) string
+
+//@ # assumed: the store returns the workloads of the requested IDs in request order
+//@ func (Store) GetWorkloads
+//@   ensures err == nil ==> len(result0) == len(IDs) && (arr(result0) == 0 || (allocated(result0) && fresh(result0)))
+//@                && forall k :: 0 <= k && k < len(result0) ==> result0[k] != nil && allocated(result0[k]) && result0[k].ID == atcall(Store.GetWorkloads, IDs[k])
+//@ func (Store) CreateLock
+//@   ensures err == nil ==> result0 != nil
+
+//@ func (*Calcium) doLock
+//@   trusted
+//@   requires c != nil
+
+//@ func (*Calcium) doUnlockAll
+//@   trusted
+
+//@ # Node (pod / node-operation) locks are taken in strictly ascending key order, each key once.
+//@ func (*Calcium) withNodesLocked
+//@   requires c != nil && nodeFilter != nil && c.store != nil && genKey != nil && f != nil
+//@   param genKey(n) = keyOf(n)
+//@   assert[C20.node-order] before call doLock#1: forall k string :: k in locks ==> k < arg2
+//@   loop 1:
+//@     modifies locks, nodes
+//@     invariant fresh(locks) && allocated(locks) && locks != nil && fresh(nodes) && allocated(nodes) && nodes != nil && locks != nodes
+//@     invariant fresh(ns) || arr(ns) == 0
+//@     invariant fresh(lockKeys) || arr(lockKeys) == 0
+//@     invariant forall a, b :: 0 <= a && a < b && b < len(ns) ==> keyOf(ns[a]) <= keyOf(ns[b])
+//@     invariant forall a :: 0 <= a && a < len(ns) ==> ns[a] != nil
+//@     invariant forall k string :: k in locks ==> exists a :: 0 <= a && a <= rangeindex && keyOf(ns[a]) == k
